@@ -103,7 +103,16 @@ func genServerRoleInput(c *Chooser) c06input {
 			c06Version + ";q=1", "x" + c06Version, "socketace/" + c06Version, c06Version + ".", c06Version + "-rc1", c06Version[:len(c06Version)-2],
 			"\"" + c06Version + "\"", c06Version + " " + c06Version, "v1.0.0;" + c06Version, c06Version[1:]}
 		v := bad[c.Pick(len(bad), "bad-version")]
-		return c06input{Class: "INVALID", Kind: "unsupported-version", Bytes: []byte(genAnnounce(c, v, "X-SOCKETACE") + validU())}
+		// the peer presses on after the refusal: with the proper upgrade, with an upgrade naming no version
+		// (what a server that negotiated nothing might expect), or with the version it offered itself
+		up := validU()
+		switch c.Pick(4, "upgrade-after-refusal") {
+		case 1:
+			up = genUpgrade(c, "GET", okConn[c.Pick(len(okConn), "conn-token")], "socketace/")
+		case 2:
+			up = genUpgrade(c, "GET", okConn[c.Pick(len(okConn), "conn-token")], "socketace/"+strings.TrimSpace(strings.Split(v, ",")[0]))
+		}
+		return c06input{Class: "INVALID", Kind: "unsupported-version", Bytes: []byte(genAnnounce(c, v, "X-SOCKETACE") + up)}
 	case 16:
 		// a request line that is as long as the read buffer (4096) or a little more or less, padded with
 		// blanks, with header-looking text at its end and no header lines: it offers no version at all
